@@ -153,6 +153,13 @@ fn run_family<T: ColumnType + 'static>(case: &Value) -> Value {
         }
     }
 
+    // background system commands (`cmd &`) are spawned for real, outside the run_command hook: the scripts use `touch <bgdir>/<name> &`
+    // and the markers found in <bgdir> afterwards are the observation
+    let bgdir = case.get("bgdir").and_then(|s| s.as_str()).map(|s| s.to_string());
+    if let Some(d) = &bgdir {
+        let _ = std::fs::remove_dir_all(d);
+        std::fs::create_dir_all(d).unwrap();
+    }
     let mut runner = Runner::new(MockMaker::<T>::new(shared.clone()));
     configure(case, &mut runner);
     match mode {
@@ -193,6 +200,27 @@ fn run_family<T: ColumnType + 'static>(case: &Value) -> Value {
     }
     drop(runner);
     set_current(None);
+    if let Some(d) = &bgdir {
+        // the spawned processes are not waited for by the runner: poll until the directory has been stable for 300 ms (2 s at most)
+        let list = |d: &str| -> Vec<String> {
+            let mut v: Vec<String> = std::fs::read_dir(d).map(|it| it.filter_map(|e| e.ok()).map(|e| e.file_name().to_string_lossy().to_string()).collect()).unwrap_or_default();
+            v.sort();
+            v
+        };
+        let t0 = std::time::Instant::now();
+        let mut last = list(d);
+        let mut stable_since = std::time::Instant::now();
+        while t0.elapsed() < std::time::Duration::from_millis(2000) && stable_since.elapsed() < std::time::Duration::from_millis(300) {
+            std::thread::sleep(std::time::Duration::from_millis(25));
+            let cur = list(d);
+            if cur != last {
+                last = cur;
+                stable_since = std::time::Instant::now();
+            }
+        }
+        out.insert("bg_markers".into(), json!(last));
+        let _ = std::fs::remove_dir_all(d);
+    }
     let sh = shared.lock().unwrap();
     out.insert("events".into(), Value::Array(sh.events.clone()));
     Value::Object(out)
